@@ -35,6 +35,9 @@ pub enum Simple {
     Push(#[form(header_body)] i32),
     #[form(tag = "setvs")]
     SetVs(#[form(header_body)] i32),
+    /// only the pair agent (`agent2`) has the store `ws`
+    #[form(tag = "setws")]
+    SetWs(#[form(header_body)] i32),
     #[form(tag = "updms")]
     UpdMs { k: i32, v: i32 },
     #[form(tag = "remms")]
@@ -253,6 +256,7 @@ impl TestLifecycle {
                 Simple::Clr => Box::new(context.clear(TestAgent::M)),
                 Simple::Push(x) => Box::new(context.supply(TestAgent::S, x).followed_by(context.effect(move || log.push(Truth::Push(x))))),
                 Simple::SetVs(x) => Box::new(context.set_value(TestAgent::VS, x)),
+                Simple::SetWs(_) => Box::new(context.effect(|| ())),
                 Simple::UpdMs { k, v } => Box::new(context.update(TestAgent::MS, k, v)),
                 Simple::RemMs(k) => Box::new(context.remove(TestAgent::MS, k)),
                 Simple::ClrMs => Box::new(context.clear(TestAgent::MS)),
